@@ -79,14 +79,14 @@ func SetStepBudget(max int64) {
 // ---- livelock budget (no API call returned for B steps) ----
 
 var (
-	callsDone   uint64
-	lastCalls   uint64
-	lastTotal   uint64
-	liveBudget  uint64 = 1 << 28
-	budgetMu    sync.Mutex
-	stuckOnce   int32
-	OnStuck     func(reason string) // nil: dump stacks, exit(3)
-	StuckExit   = 3
+	callsDone  uint64
+	lastCalls  uint64
+	lastTotal  uint64
+	liveBudget uint64 = 1 << 28
+	budgetMu   sync.Mutex
+	stuckOnce  int32
+	OnStuck    func(reason string) // nil: dump stacks, exit(3)
+	StuckExit  = 3
 )
 
 // Progress is called by the harness whenever an API call has returned.
@@ -191,9 +191,9 @@ func casResult(ok bool) {
 		atomic.AddUint64(&casFail, 1)
 	}
 }
-func condWaited()     { atomic.AddUint64(&condWaits, 1) }
-func ledger(d int64)  { atomic.AddInt64(&lockBal, d) }
-func polling() bool   { return atomic.LoadInt32(&mode)&MPoll != 0 }
+func condWaited()    { atomic.AddUint64(&condWaits, 1) }
+func ledger(d int64) { atomic.AddInt64(&lockBal, d) }
+func polling() bool  { return atomic.LoadInt32(&mode)&MPoll != 0 }
 
 func waitSpin(k Kind) {
 	if k == KLockSpin {
